@@ -229,6 +229,8 @@ func TestVerifC04(t *testing.T) {
 			c04Write(c, res)
 		case "vp":
 			c04Put(c, res)
+		case "conc":
+			c04Conc(raw, res) // c04_conc_test.go: K frames parsed concurrently over gated readers
 		default:
 			t.Fatalf("unknown case kind %q", c.K)
 		}
